@@ -531,7 +531,7 @@ def _innermost_repo_func(tb):
 
 # ---------------------------------------------------------------- kernel
 class Pipe:
-    __slots__ = ("buf", "cap", "r", "w", "total", "pid", "watch")
+    __slots__ = ("buf", "cap", "r", "w", "total", "pid", "watch", "origin", "born_step", "n")
 
     def __init__(self, cap, pid):
         self.buf = bytearray()
@@ -541,6 +541,9 @@ class Pipe:
         self.total = 0
         self.pid = pid
         self.watch = False
+        self.origin = "?"
+        self.born_step = 0
+        self.n = 0
 
 
 class OpenFile:
@@ -668,8 +671,25 @@ class Kernel:
         return t.proc if t else None
 
     # ---- fds
+    ORIGINS = {"_ThreadWakeup.__init__": "wakeup", "Popen._launch": "launch", "fork_exec": "errpipe",
+               "spawnv_passfds": "errpipe", "ResourceTracker.ensure_running": "tracker",
+               "_StubMpTracker.ensure_running": "mp-tracker", "Interp.op_open_fds": "user",
+               "SimpleQueue.__init__": "result-queue", "Queue.__init__": "call-queue"}
+
     def pipe(self, proc):
         pp = Pipe(self.pipe_cap, proc.pid)
+        f = sys._getframe(1)
+        for _ in range(14):
+            if f is None:
+                break
+            o = self.ORIGINS.get(f.f_code.co_qualname)
+            if o is not None:
+                pp.origin = o
+                break
+            f = f.f_back
+        pp.born_step = self.s.steps
+        self.npipes = getattr(self, "npipes", 0) + 1
+        pp.n = self.npipes
         r = proc.alloc_fd(OpenFile(pp, "r"))
         w = proc.alloc_fd(OpenFile(pp, "w"))
         return r, w
